@@ -236,6 +236,8 @@ def model_spec(draw, cfg=None):
         wst = st.sampled_from([1.0, 2.0, -1.5, 0.5, 3.0, -0.75, 0.3, -2.0, 1.25, 5.0])
         for _ in range(n_edges):
             c = draw(st.integers(0, 9))
+            if not cfg.get("edge_reuse", True) and c < 5:
+                c = 9 if draw(st.integers(0, 3)) else c  # reuse of earlier endpoints only in 1/4 of those draws
             if edges and c < 2:
                 s, t = edges[draw(st.integers(0, len(edges) - 1))]["s_abs"], None
                 t = edges[draw(st.integers(0, len(edges) - 1))]["t_abs"]
